@@ -15,7 +15,7 @@ use vpmodel::spec::{mono, ChainSpec};
 pub const DEF: PropDef = PropDef {
     id: "C10",
     level: "fault_enumeration",
-    rule: "fault plans applied to generated chains stored in 2..4 blk files, for the three file-producing callbacks. Enumerated part (fixed generated 6-block chain): every height x input fault {blk file removed, emptied, truncated at 7 positions of the block incl. inside the length prefix and at the last byte (thorough tier: at every byte of one block), index offset past EOF}; 27 RLIMIT_FSIZE limits from 0 to above the largest output file (SIGXFSZ ignored, so writes fail with EFBIG) on an index pre-compacted to table files; ENOSPC injected (strace) at the k-th write to any dump file for k=1..8 and at the first and second write to each single dump file; SIGKILL injected on entry of the k-th openat/write/rename/close touching a dump file for k=1..6 each. One enumerated chain produces > 4 MB per file so that writes fail mid-run, before the final flush. Random part: random chains, ranges and fault plans, a quarter of them into a dump folder that already holds longer stale *.tmp files of an earlier failed run. Oracles: (a) exit 0 => every expected final-named file present and byte-identical to the undisturbed run, no *.tmp; (b) input fault hitting a processed height h => exit != 0, 'Error at height h', no final-named file; (c) output fault that fires => exit != 0 and no final-named file; (d) kill at any point => every final-named file that exists is byte-identical to the undisturbed output. Non-trivial = the fault actually fired in the read/write path of the run (not at start-up); distinct by (callback, fault kind, position).",
+    rule: "fault plans applied to generated chains stored in 2..4 blk files, for the three file-producing callbacks. Enumerated part (fixed generated 6-block chain): every height x input fault {blk file removed, emptied, truncated at 7 positions of the block incl. inside the length prefix and at the last byte (thorough tier: at every byte of one block), index offset past EOF}; 27 RLIMIT_FSIZE limits from 0 to above the largest output file (SIGXFSZ ignored, so writes fail with EFBIG) on an index pre-compacted to table files; ENOSPC injected (strace) at the k-th write to any dump file for k=1..8 and at the first and second write to each single dump file; SIGKILL injected on entry of the k-th openat/write/rename/close touching a dump file for k=1..6 each. Start-up failures {blockchain dir missing, index dir missing, index CURRENT naming a missing manifest, rejected range (--end <= --start), dump folder missing, dump folder path is a regular file}: exit != 0 and no final-named file. One enumerated chain produces > 4 MB per file so that writes fail mid-run, before the final flush. Random part: random chains, ranges and fault plans, a quarter of them into a dump folder that already holds longer stale *.tmp files of an earlier failed run. Oracles: (a) exit 0 => every expected final-named file present and byte-identical to the undisturbed run, no *.tmp; (b) input fault hitting a processed height h => exit != 0, 'Error at height h', no final-named file; (c) output fault that fires => exit != 0 and no final-named file; (d) kill at any point => every final-named file that exists is byte-identical to the undisturbed output. Non-trivial = the fault actually fired (for input/output faults: in the read/write path of the run, not at start-up); distinct by (callback, fault kind, position).",
     assumptions: &["crash points are syscall-granular (the directory can only change at syscalls); power loss / fsync ordering is outside the statement", "physical order inside a file equals height order, so the first height lost by a truncation is the truncated block's"],
     run,
     replay,
@@ -38,6 +38,9 @@ pub enum Fault {
         file: Option<u8>,
     },
     Kill { syscall: String, k: u32 },
+    /// the run cannot even start: 0 blockchain dir missing, 1 index dir missing, 2 rejected range (--end <= --start),
+    /// 3 dump folder missing, 4 index CURRENT names a manifest that does not exist, 5 dump folder path is a regular file
+    Startup { kind: u8 },
 }
 
 #[derive(Clone, Debug, Serialize, Deserialize)]
@@ -133,7 +136,13 @@ fn prepare(c: &Case, built: &vpmodel::spec::Built, s: u64, e: u64, with_fault: b
             _ => {}
         }
     }
-    plan.write_index(&data.join("index"))?;
+    let no_index = with_fault && matches!(c.fault, Fault::Startup { kind: 1 });
+    if !no_index {
+        plan.write_index(&data.join("index"))?;
+    }
+    if with_fault && matches!(c.fault, Fault::Startup { kind: 4 }) {
+        std::fs::write(data.join("index").join("CURRENT"), b"MANIFEST-999999\n").map_err(|e| e.to_string())?;
+    }
     Ok(Prepared { scratch, data, fail_height, fired_possible })
 }
 
@@ -161,8 +170,19 @@ pub fn check(c: &Case) -> Verdict {
     let max_size = reference.files.values().map(|v| v.len() as u64).max().unwrap_or(0);
     // faulted run
     let p = infra!(prepare(c, &built, s, e, true));
-    let dump = p.scratch.sub("dump");
-    if c.stale_tmp {
+    let mut dump = p.scratch.sub("dump");
+    let mut data_dir = p.data.clone();
+    match &c.fault {
+        Fault::Startup { kind: 0 } => data_dir = p.scratch.path.join("no-such-blockchain-dir"),
+        Fault::Startup { kind: 3 } => dump = p.scratch.path.join("no-such-dump-folder"),
+        Fault::Startup { kind: 5 } => {
+            dump = p.scratch.path.join("dump-is-a-file");
+            infra!(std::fs::write(&dump, b"x").map_err(|e| e.to_string()));
+        }
+        _ => {}
+    }
+    let startup = matches!(c.fault, Fault::Startup { .. });
+    if c.stale_tmp && !startup {
         let junk = vec![b'~'; (max_size as usize) * 2 + 100_000];
         for stem in c.cb.stems() {
             infra!(std::fs::write(dump.join(format!("{}.csv.tmp", stem)), &junk).map_err(|e| e.to_string()));
@@ -185,9 +205,15 @@ pub fn check(c: &Case) -> Verdict {
             of.inject = Some(Inject { syscall: "write".into(), action: "error=ENOSPC".into(), when: *k as u64, paths, when_expr: None })
         }
         Fault::Kill { syscall, k } => of.inject = Some(Inject { syscall: syscall.clone(), action: "signal=KILL".into(), when: *k as u64, paths: tmp_paths(c.cb, &dump), when_expr: None }),
+        Fault::Startup { kind: 2 } => {
+            // --end below or equal to --start is rejected by the option parser
+            let st = s.max(1);
+            of.start = Some(st);
+            of.end = Some(if c.stale_tmp { st } else { st - 1 });
+        }
         _ => {}
     }
-    let out = infra!(vpmodel::run::run_tool(&p.data, &dump, &of));
+    let out = infra!(vpmodel::run::run_tool(&data_dir, &dump, &of));
     if out.timed_out {
         return Verdict::Infra(format!("faulted run hit the watchdog: {}", out.describe()));
     }
@@ -286,6 +312,15 @@ pub fn check(c: &Case) -> Verdict {
                 fired = false;
             }
         }
+        Fault::Startup { kind } => {
+            if out.ok() {
+                return Verdict::Fail(format!("start-up failure kind {} (no output can have been produced), yet the run exited 0: {}", kind, out.describe()));
+            }
+            if !out.final_files().is_empty() {
+                return Verdict::Fail(format!("start-up failure kind {}: failed run left final-named files {:?}", kind, out.final_files()));
+            }
+            fired = true;
+        }
         Fault::Kill { .. } => {
             if let Err(m) = finals_identical(&out) {
                 return Verdict::Fail(format!("SIGKILL at {:?}: {}", c.fault, m));
@@ -306,6 +341,7 @@ pub fn check(c: &Case) -> Verdict {
         Fault::Fsize { .. } => "fsize-limit".into(),
         Fault::Enospc { .. } => "enospc".into(),
         Fault::Kill { syscall, .. } => format!("kill@{}", syscall),
+        Fault::Startup { kind } => format!("startup-{}", kind),
     };
     let mut classes = vec![format!("cb={}", c.cb.cli()), format!("fault={}", kind), format!("fired={}", fired)];
     if max_size > 4_000_000 {
@@ -359,6 +395,10 @@ fn enumerated(seed: u64, tier: Tier) -> Vec<Case> {
         v.push(mk(Fault::None));
         v.push(Case { stale_tmp: true, ..mk(Fault::None) });
         v.push(Case { stale_tmp: true, ..mk(Fault::Kill { syscall: "rename".into(), k: 1 }) });
+        for kind in 0..=5u8 {
+            v.push(mk(Fault::Startup { kind }));
+        }
+        v.push(Case { stale_tmp: true, ..mk(Fault::Startup { kind: 2 }) });
         for i in 0..nb {
             v.push(mk(Fault::FileRemoved { h: hsel(i) }));
             v.push(mk(Fault::FileEmptied { h: hsel(i) }));
@@ -422,6 +462,7 @@ fn random_strategy(tier: Tier) -> BS<Case> {
         4 => (0u32..=1000, -2i32..=2).prop_map(|(num, delta)| Fault::Fsize { num, den: 1000, delta }),
         2 => (1u32..10, proptest::option::weighted(0.5, 0u8..4)).prop_map(|(k, file)| Fault::Enospc { k, file }),
         4 => (proptest::sample::select(vec!["openat", "write", "rename", "close"]), 1u32..8).prop_map(|(s, k)| Fault::Kill { syscall: s.to_string(), k }),
+        1 => (0u8..=5).prop_map(|kind| Fault::Startup { kind }),
     ];
     (gen::chain(&chain_cfg(tier)), 2u8..=4, proptest::sample::select(FILE_CALLBACKS.to_vec()), proptest::option::weighted(0.3, any::<u16>()), proptest::option::weighted(0.3, any::<u16>()), fault, proptest::bool::weighted(0.25)).prop_map(|(chain, nfiles, cb, start, end, fault, stale_tmp)| Case { chain, nfiles, cb, start, end, fault, stale_tmp }).boxed()
 }
